@@ -793,6 +793,11 @@ class Engine:
             oa, ob = st.heap[a.addr], st.heap[b.addr]
             if isinstance(oa, HSeq) and isinstance(ob, HSeq):
                 ga, gb = oa.get, ob.get
+                # an empty list literal has no elements to merge: whenever an index is valid it belongs to the other operand
+                if oa.note == "empty":
+                    ga = gb
+                elif ob.note == "empty":
+                    gb = ga
                 merged = HSeq(z3.If(c, oa.len, ob.len), lambda k: self.vite(c, ga(k), gb(k), st), numpy=oa.numpy and ob.numpy, etype=oa.etype or ob.etype)
                 if shared:
                     # called lazily (from an element function): the merged, immutable view lives in the shared side table so that every later state can see it
